@@ -349,10 +349,10 @@ Definition ans_loaded (t : tables) (o : op) : answer :=
   end.
 
 Lemma run_loaded k t ops :
-  run {| p_k := k; p_pending := None; p_tab := t |} ops = map (ans_loaded t) ops.
+  run_ops {| p_k := k; p_pending := None; p_tab := t |} ops = map (ans_loaded t) ops.
 Proof.
   induction ops as [|o ops IH]; [reflexivity|].
-  cbn [run map]. destruct o as [q| |]; cbn [step ans_loaded].
+  cbn [run_ops map]. destruct o as [q| |]; cbn [step ans_loaded].
   - unfold get. cbn [p_tab p_pending]. destruct (lookup t q) as [a|]; rewrite IH; reflexivity.
   - unfold getitem. cbn [p_pending p_tab]. rewrite IH. reflexivity.
   - unfold target_count. cbn [p_tab]. rewrite IH. reflexivity.
@@ -362,10 +362,10 @@ Qed.
    parse + expand k, and from then on the parser answers from expand k (load lines) *)
 Lemma run_lazy lines k tx ops :
   expand k (load lines) = Ok tx ->
-  map mask (run (lazy_init k lines) ops) = map mask (map (ans_loaded tx) ops).
+  map mask (run_ops (lazy_init k lines) ops) = map mask (map (ans_loaded tx) ops).
 Proof.
   intros Hx. induction ops as [|o ops IH]; [reflexivity|].
-  cbn [run map]. destruct o as [q| |]; cbn [step ans_loaded].
+  cbn [run_ops map]. destruct o as [q| |]; cbn [step ans_loaded].
   - unfold get, lazy_init. cbn [p_tab p_pending p_k].
     change (lookup empty_tables q) with (@None hit).
     change (load_into empty_tables lines) with (load lines). rewrite Hx.
@@ -378,7 +378,7 @@ Qed.
 
 Theorem lazy_eq_eager_ops lines k ops :
   exists p, eager_init k lines = Some p /\
-            map mask (run (lazy_init k lines) ops) = map mask (run p ops).
+            map mask (run_ops (lazy_init k lines) ops) = map mask (run_ops p ops).
 Proof.
   destruct (eager_tables_ok lines k) as (te & tx & H1 & H2 & H3).
   assert (Hb : bcs te = bcs tx).
@@ -392,8 +392,8 @@ Proof.
 Qed.
 
 (* a history of lookups only is the old state machine *)
-Lemma run_lookups p qs : run p (map OLookup qs) = answers p qs.
+Lemma run_lookups p qs : run_ops p (map OLookup qs) = answers p qs.
 Proof.
   revert p. induction qs as [|q qs IH]; intros p; [reflexivity|].
-  cbn [map run answers step]. destruct (get p q) as [p' a]. rewrite IH. reflexivity.
+  cbn [map run_ops answers step]. destruct (get p q) as [p' a]. rewrite IH. reflexivity.
 Qed.
